@@ -1,18 +1,20 @@
 #!/bin/bash
 # Re-runs, for every seeded change, the quick check of its property against a scratch worktree with the patch applied.
-# A seeded change must make its check exit 1.  usage: tools/run_seeded.sh [tier]
+# A seeded change must make its check exit 1 for every seed.  usage: [SEEDS="0 1"] [ONLY=C02c] tools/run_seeded.sh [tier]
 cd "$(dirname "$0")/.." || exit 2
 tier=${1:-quick}
 wt=/tmp/seeded-wt
 git -C /repo worktree remove --force $wt >/dev/null 2>&1
 git -C /repo worktree add -q $wt HEAD || exit 2
 fail=0
-for d in seeded/*/; do
+for d in seeded/${ONLY:-}*/; do
   id=$(basename $d | cut -c1-3)
   git -C $wt checkout -q -- . && git -C $wt apply "$PWD/${d}patch.diff" || { echo "$d: patch does not apply"; fail=1; continue; }
-  out=$(SMG_REPO=$wt ./check $id $tier 2>&1); rc=$?
-  echo "$(basename $d): $id $tier rc=$rc $(echo "$out" | grep -E '^(VIOLATION|INCONCLUSIVE|HELD)' | head -1 | cut -c1-160)"
-  [ $rc -eq 1 ] || fail=1
+  for s in ${SEEDS:-0}; do
+    out=$(SMG_REPO=$wt VERIF_SEED=$s ./check $id $tier 2>&1); rc=$?
+    echo "$(basename $d): $id $tier seed=$s rc=$rc $(echo "$out" | grep -E '^(VIOLATION|INCONCLUSIVE|HELD)' | head -1 | cut -c1-160)"
+    [ $rc -eq 1 ] || fail=1
+  done
 done
 git -C /repo worktree remove --force $wt
 exit $fail
